@@ -71,7 +71,9 @@ func init() {
 	}
 	for _, k := range []string{"(*sync.Mutex).Unlock", "(*sync.RWMutex).Unlock", "(*sync.RWMutex).RUnlock", "(sync.Locker).Unlock"} {
 		models[k] = release
-		modelEffects[k] = func(e *Exec, cc *ssa.CallCommon) []string { return []string{"G_held"} }
+		modelEffects[k] = func(e *Exec, cc *ssa.CallCommon) []string {
+			return []string{"G_held", e.heapMap("G_heldx", "(Array Int Bool)")}
+		}
 	}
 	models["sync.NewCond"] = func(e *Exec, fr *Frame, st *State, args []Val, cc *ssa.CallCommon, pos token.Pos) Val {
 		ref := e.alloc(st)
@@ -294,9 +296,7 @@ func init() {
 
 	// ----- time -----
 	models["time.Now"] = func(e *Exec, fr *Frame, st *State, args []Val, cc *ssa.CallCommon, pos token.Pos) Val {
-		v := e.fresh(st, "now", types.Typ[types.Int64])
-		e.sc.assume(st.reach, timeSane(v.T))
-		return Val{T: v.T, Typ: cc.Signature().Results().At(0).Type()}
+		return Val{T: e.readClock(st), Typ: cc.Signature().Results().At(0).Type()}
 	}
 	models["time.Unix"] = func(e *Exec, fr *Frame, st *State, args []Val, cc *ssa.CallCommon, pos token.Pos) Val {
 		return Val{T: fmt.Sprintf("(+ (* %s 1000000000) %s)", args[0].T, args[1].T), Typ: cc.Signature().Results().At(0).Type()}
@@ -325,6 +325,7 @@ func init() {
 	for _, k := range []string{"time.Now", "time.Unix", "(time.Time).Unix", "(time.Time).UTC", "(time.Time).Add", "(time.Time).Before", "(time.Time).After", "(time.Time).IsZero", "time.Until"} {
 		modelEffects[k] = func(e *Exec, cc *ssa.CallCommon) []string { return nil }
 	}
+	modelEffects["time.Now"] = func(e *Exec, cc *ssa.CallCommon) []string { return []string{e.heapMap("G_clock", "Int")} }
 
 	// ----- strings -----
 	models["strings.ToLower"] = func(e *Exec, fr *Frame, st *State, args []Val, cc *ssa.CallCommon, pos token.Pos) Val {
@@ -387,6 +388,18 @@ func init() {
 	registerHeapModels()
 	registerCryptoModels()
 	registerBufferModels()
+}
+
+// readClock: a clock read returns a value not smaller than any earlier read (ghost G_clock, in ns).
+func (e *Exec) readClock(st *State) string {
+	m := e.heapMap("G_clock", "Int")
+	prev := e.hget(st, m)
+	v := e.fresh(st, "now", types.Typ[types.Int64])
+	e.sc.assume(st.reach, timeSane(v.T))
+	e.sc.assume(st.reach, "(>= "+v.T+" "+prev+")")
+	e.hset(st, m, v.T)
+	e.sc.used["the wall clock is monotone (successive time.Now / WorldState.Now reads do not decrease)"] = true
+	return v.T
 }
 
 func timeSane(t string) string {
